@@ -635,12 +635,14 @@ def judge_candidate(cs, c, tris, vert_pts, refine):
                 u, v = e[4], e[5]
                 if p == u or p == v or q == u or q == v: continue
                 if segs_cross2(p, q, u, v):
-                    # by a margin (a T-junction that rounding turned into a crossing is not an overlap)
-                    den = (q[0]-p[0]) * (v[1]-u[1]) - (q[1]-p[1]) * (v[0]-u[0])
-                    s = Fraction((u[0]-p[0]) * (v[1]-u[1]) - (u[1]-p[1]) * (v[0]-u[0]), den)
-                    t = Fraction((u[0]-p[0]) * (q[1]-p[1]) - (u[1]-p[1]) * (q[0]-p[0]), den)
-                    mg = Fraction(1, 10**9) if not f32 else Fraction(1, 10**4)
-                    if mg < s < 1 - mg and mg < t < 1 - mg:
+                    # by a margin: every end point clearly off the other edge's line (collinear edges of a T-junction that
+                    # rounding turned into a crossing, or a vertex rounded across an edge, are not overlaps)
+                    def off(a, b, x):
+                        o = orient2(a, b, x)
+                        return o * o > R2 * ((b[0]-a[0])**2 + (b[1]-a[1])**2)
+                    if off(p, q, u) and off(p, q, v) and off(u, v, p) and off(u, v, q):
+                        den = (q[0]-p[0]) * (v[1]-u[1]) - (q[1]-p[1]) * (v[0]-u[0])
+                        s = Fraction((u[0]-p[0]) * (v[1]-u[1]) - (u[1]-p[1]) * (v[0]-u[0]), den)
                         return ('fail', 'triangles-overlap', 'two mesh edges cross at an interior point (at %.9g, %.9g in the projection)'
                                 % (float(p[0] + s * (q[0]-p[0])) / U, float(p[1] + s * (q[1]-p[1])) / U))
     if judged_pts == 0: return ('skip', 'band-all-points-on-outline')
